@@ -72,6 +72,9 @@ fn main() {
                         if matrix && i % 6 == 5 {
                             g.probes();
                         }
+                        if args[1] == "world" && i % 12 == 7 {
+                            g.edge_probes();
+                        }
                         if pages && i % 15 == 14 {
                             g.page_queries();
                         }
